@@ -24,6 +24,7 @@ var table = map[string]struct {
 	"C06": {"model_checking", checks.C06},
 	"C07": {"model_checking", checks.C07},
 	"C08": {"model_checking", checks.C08},
+	"C09": {"model_checking", checks.C09},
 	"C10": {"model_checking", checks.C10},
 	"C12": {"fault_enumeration", checks.C12},
 	"C13": {"model_checking", checks.C13},
@@ -43,6 +44,14 @@ func main() {
 		os.Exit(2)
 	}
 	id, tier := os.Args[1], os.Args[2]
+	if id == "C09-worker" {
+		checks.C09Worker(os.Args[3:])
+		return
+	}
+	if id == "C09-race" {
+		checks.C09Race(os.Args[3:])
+		return
+	}
 	if id == "C20-worker" {
 		checks.C20Worker()
 		return
